@@ -190,14 +190,14 @@ PROPS['C16'] = {
     'kani': {
         'quick': [krun(['c16::q::ops::', 'c16::q::ops_payload::'], flags=['--cbmc-args', '--memory-leak-check'], timeout=900,
                        bounds='every alloc-feature operation (symbolic selector over 10 operations) x N in {0,1,3} x T in {u64,()} under Kani\'s allocator model (zero-size request and dealloc-size assertions) with --memory-leak-check; heap-payload elements'),
-                  krun(['c16::q::ops_fail::'], flags=['-Z', 'stubbing'], timeout=900,
+                  krun(['c16::q::ops_fail::', 'c16::q::ops_align::'], flags=['-Z', 'stubbing'], timeout=900,
                        bounds='allocation failure injected nondeterministically at every alloc::alloc::alloc call (stub); handle_alloc_error stubbed as end-of-path; N in {0,1,3}')],
         'thorough': [krun(['c16::q::ops::', 'c16::q::ops_payload::', 'c16::t::ops::', 'c16::t::ops_payload::'], flags=['--cbmc-args', '--memory-leak-check'], timeout=2400, bounds='N up to 8, more element types'),
-                     krun(['c16::q::ops_fail::', 'c16::t::ops_fail::'], flags=['-Z', 'stubbing'], timeout=2400, bounds='N up to 8')],
+                     krun(['c16::q::ops_fail::', 'c16::t::ops_fail::', 'c16::q::ops_align::', 'c16::t::ops_align::'], flags=['-Z', 'stubbing'], timeout=2400, bounds='N up to 8')],
     },
     'functions': ['every function of src/impl_alloc.rs', 'box_arr! helper'],
     'bounds': 'K: N <= 3 (thorough 8).',
-    'outside': ['alignment passed to dealloc is not compared by Kani\'s allocator model', 'panicking closures (unwinding): engine M', 'blocks allocated and freed inside Vec/Box themselves are exercised through the real std code; std\'s own pairing is otherwise trusted'],
+    'outside': ['panicking closures (unwinding): engine M', 'blocks allocated and freed inside Vec/Box themselves are exercised through the real std code; std\'s own pairing is otherwise trusted'],
     'assumptions': ['stub: alloc::alloc::alloc may return null (ops_fail harnesses only)', 'stub: alloc::alloc::handle_alloc_error records that it was reached and ends the path'],
 }
 
